@@ -477,7 +477,8 @@ class TaggedSeries(object):
       ])
 
     # metric isn't tagged, just replace dots with the separator and trim any leading separator
-    return metric.replace('.', sep).lstrip(sep)
+    # (also a leading path separator: with sep='.' it would otherwise make the path absolute)
+    return metric.replace('.', sep).lstrip(sep + os.sep)
 
   @staticmethod
   def decode(path, sep='.'):
